@@ -1,0 +1,165 @@
+//go:build verif
+
+package sparseindex
+
+// Contracts for /verif (gvc). Comment-only file; see /verif/DESIGN.md §5 C20.
+
+//@ prop C20
+
+// ---------------------------------------------------------------- three-valued marks (mark.go)
+
+//@ func NewMark
+//@   ensures result.canBeTrue == canBeTrue && result.canBeFalse == canBeFalse
+//@   assigns nothing
+
+//@ func Mark.And
+//@   ensures result.canBeTrue == (m.canBeTrue && mask.canBeTrue)
+//@   ensures result.canBeFalse == (m.canBeFalse || mask.canBeFalse)
+//@   assigns nothing
+
+//@ func Mark.Or
+//@   ensures result.canBeTrue == (m.canBeTrue || mask.canBeTrue)
+//@   ensures result.canBeFalse == (m.canBeFalse && mask.canBeFalse)
+//@   assigns nothing
+
+//@ func Mark.Not
+//@   ensures result.canBeTrue == m.canBeFalse && result.canBeFalse == m.canBeTrue
+//@   assigns nothing
+
+//@ func Mark.isComplete
+//@   ensures result == (m.canBeFalse && m.canBeTrue)
+//@   assigns nothing
+
+// A mark (t,f) covers a condition on a box iff (some point satisfies it ==> t) and (some point falsifies it ==> f).
+// exT/exF: "some point of the box satisfies / falsifies the condition".
+//@ spec func covers(t bool, f bool, exT bool, exF bool) bool = (exT ==> t) && (exF ==> f)
+
+//@ lemma mark_and_sound(t1 bool, f1 bool, t2 bool, f2 bool, a1 bool, n1 bool, a2 bool, n2 bool, aT bool, aF bool)
+//@   requires covers(t1, f1, a1, n1) && covers(t2, f2, a2, n2)
+//@   requires aT ==> (a1 && a2)
+//@   requires aF ==> (n1 || n2)
+//@   ensures  covers(t1 && t2, f1 || f2, aT, aF)
+
+//@ lemma mark_or_sound(t1 bool, f1 bool, t2 bool, f2 bool, a1 bool, n1 bool, a2 bool, n2 bool, oT bool, oF bool)
+//@   requires covers(t1, f1, a1, n1) && covers(t2, f2, a2, n2)
+//@   requires oT ==> (a1 || a2)
+//@   requires oF ==> (n1 && n2)
+//@   ensures  covers(t1 || t2, f1 && f2, oT, oF)
+
+//@ lemma mark_not_sound(t bool, f bool, a bool, n bool)
+//@   requires covers(t, f, a, n)
+//@   ensures  covers(f, t, n, a)
+
+// union of two boxes: the same condition examined on B1 and B2
+//@ lemma mark_union_sound(t1 bool, f1 bool, t2 bool, f2 bool, a1 bool, n1 bool, a2 bool, n2 bool)
+//@   requires covers(t1, f1, a1, n1) && covers(t2, f2, a2, n2)
+//@   ensures  covers(t1 || t2, f1 || f2, a1 || a2, n1 || n2)
+
+// ---------------------------------------------------------------- total order on key values (field.go)
+
+// fr_lt / fr_eq: the order the index is sorted by (values with -inf, +inf and null), abstract.
+//@ spec func fr_lt(a *FieldRef, b *FieldRef) bool
+//@ spec func fr_eq(a *FieldRef, b *FieldRef) bool
+//@ axiom forall a Ptr :: fr_eq(a, a) && !fr_lt(a, a)
+//@ axiom forall a Ptr, b Ptr :: fr_eq(a, b) == fr_eq(b, a)
+//@ axiom forall a Ptr, b Ptr :: fr_lt(a, b) || fr_eq(a, b) || fr_lt(b, a)
+//@ axiom forall a Ptr, b Ptr :: !(fr_lt(a, b) && fr_lt(b, a)) && !(fr_lt(a, b) && fr_eq(a, b))
+//@ axiom forall a Ptr, b Ptr, c Ptr :: fr_lt(a, b) && fr_lt(b, c) ==> fr_lt(a, c)
+//@ axiom forall a Ptr, b Ptr, c Ptr :: fr_eq(a, b) && fr_lt(b, c) ==> fr_lt(a, c)
+//@ axiom forall a Ptr, b Ptr, c Ptr :: fr_lt(a, b) && fr_eq(b, c) ==> fr_lt(a, c)
+//@ axiom forall a Ptr, b Ptr, c Ptr :: fr_eq(a, b) && fr_eq(b, c) ==> fr_eq(a, c)
+
+//@ func (*FieldRef).Less
+//@   requires f != nil && rhs != nil
+//@   ensures  (f.row == 9223372036854775807 || f.row == -9223372036854775808 || rhs.row == 9223372036854775807 || rhs.row == -9223372036854775808) ==> \
+//@            result == ((f.row == -9223372036854775808 && rhs.row != -9223372036854775808) || (f.row != 9223372036854775807 && rhs.row == 9223372036854775807))
+//@   trusted_ensures result == fr_lt(f, rhs)
+//@   assigns nothing
+
+//@ func (*FieldRef).Equals
+//@   requires f != nil && rhs != nil
+//@   ensures  (f.row == 9223372036854775807 || f.row == -9223372036854775808 || rhs.row == 9223372036854775807 || rhs.row == -9223372036854775808) ==> \
+//@            result == ((f.row == 9223372036854775807 && rhs.row == 9223372036854775807) || (f.row == -9223372036854775808 && rhs.row == -9223372036854775808))
+//@   trusted_ensures result == fr_eq(f, rhs)
+//@   assigns nothing
+
+//@ func (*FieldRef).IsPositiveInfinity
+//@   requires f != nil
+//@   ensures result == (f.row == 9223372036854775807)
+//@   assigns nothing
+
+//@ func (*FieldRef).IsNegativeInfinity
+//@   requires f != nil
+//@   ensures result == (f.row == -9223372036854775808)
+//@   assigns nothing
+
+// ---------------------------------------------------------------- ranges (range.go)
+
+// x lies in range r
+//@ spec func inr(r *Range, x *FieldRef) bool = (fr_lt(r.left, x) || (r.leftIncluded && fr_eq(x, r.left))) && (fr_lt(x, r.right) || (r.rightIncluded && fr_eq(x, r.right)))
+//@ spec func wfr(r *Range) bool = r != nil && r.left != nil && r.right != nil
+
+//@ func NewRange
+//@   ensures result != nil && fresh(result)
+//@   ensures result.left == left && result.right == right && result.leftIncluded == li && result.rightIncluded == ri
+//@   assigns nothing
+
+//@ func (*Range).leftLEQ
+//@   requires wfr(r) && x != nil
+//@   ensures result == (fr_lt(r.left, x) || (r.leftIncluded && fr_eq(x, r.left)))
+//@   assigns nothing
+
+//@ func (*Range).rightGEQ
+//@   requires wfr(r) && x != nil
+//@   ensures result == (fr_lt(x, r.right) || (r.rightIncluded && fr_eq(x, r.right)))
+//@   assigns nothing
+
+//@ func (*Range).rightLQ
+//@   requires wfr(r) && wfr(nr)
+//@   ensures result ==> (forall x *FieldRef :: !(inr(r, x) && inr(nr, x)))
+//@   assigns nothing
+
+// Post from the property: a range that shares a point with the block's key range is never reported as disjoint.
+//@ func (*Range).intersectsRange
+//@   requires wfr(r) && wfr(nr)
+//@   ensures (exists x *FieldRef :: inr(r, x) && inr(nr, x)) ==> result
+//@   assigns nothing
+
+// Post from the property: "contains" (=> canBeFalse=false) only if every point of nr lies in r.
+//@ func (*Range).containsRange
+//@   requires wfr(r) && wfr(nr)
+//@   ensures result ==> (forall x *FieldRef :: inr(nr, x) ==> inr(r, x))
+//@   assigns nothing
+
+// ---------------------------------------------------------------- accumulation over the hyper-rectangle decomposition (condition.go)
+
+// cbTrue: "some invocation of callBack so far returned (canBeTrue, nil)". Soundness of MayBeInRange needs:
+// if any examined box may contain a match, the accumulated mark says canBeTrue.
+//@ global ghost cbTrue bool
+
+//@ func (*KeyConditionImpl).checkInAnyRange
+//@   call callBack
+//@     set cbTrue = cbTrue || (ret1 == nil && ret0.canBeTrue)
+//@   ensures old(cbTrue) ==> cbTrue
+//@   ensures result1 == nil ==> ((cbTrue && !old(cbTrue)) ==> result0.canBeTrue)
+//@   loop 1
+//@     invariant cbTrue == old(cbTrue)
+
+//@ func (*KeyConditionImpl).checkRangeLeftRightBound
+//@   call callBack
+//@     set cbTrue = cbTrue || (ret1 == nil && ret0.canBeTrue)
+//@   ensures old(cbTrue) ==> cbTrue
+//@   ensures result2 == nil ==> ((cbTrue && !old(cbTrue)) ==> result0.canBeTrue)
+//@   ensures result2 == nil && result1 && prefixSize+1 != keySize ==> result0.canBeTrue && result0.canBeFalse
+//@   loop 1
+//@     invariant cbTrue == old(cbTrue)
+
+//@ func (*KeyConditionImpl).checkRangeLeftBound
+//@   ensures old(cbTrue) ==> cbTrue
+//@   ensures result2 == nil ==> ((res.canBeTrue || (cbTrue && !old(cbTrue))) ==> result0.canBeTrue)
+//@   ensures result2 == nil && result1 ==> result0.canBeTrue && result0.canBeFalse
+
+//@ func (*KeyConditionImpl).checkRangeRightBound
+//@   ensures old(cbTrue) ==> cbTrue
+//@   ensures result2 == nil ==> ((res.canBeTrue || (cbTrue && !old(cbTrue))) ==> result0.canBeTrue)
+//@   ensures result2 == nil && result1 ==> result0.canBeTrue && result0.canBeFalse
